@@ -30,7 +30,10 @@ Inductive obs :=
 
 Inductive c16case :=
 | KPair (x y : option cval) (pe_raw pe_strip : bool * bool) (os : list obs)
-| KStream (e : ecfg) (seed : option cval) (writes : list cval) (emitted : list cval).
+| KStream (e : ecfg) (seed : option cval) (writes : list cval) (emitted : list cval)
+(* a resource.Collection with an equivalence holding one item "a" = seed at subscription; the item is
+   updated to each of [writes]; [emitted]: the new values of the changes delivered for "a" *)
+| KCollStream (e : ecfg) (seed : cval) (writes : list cval) (emitted : list cval).
 
 (* ---------- model ---------- *)
 Definition model_v (c : vcfg) : vcmp :=
@@ -55,6 +58,16 @@ Definition pull_model (e : ecfg) (seed : option cval) (writes : list cval) : lis
                   (mkV seed 0 0) (mkR (rmask := unit) None false None)
                   (map (fun w => mkVE w 0) writes)).
 
+Fixpoint chain_events (prev : cval) (ws : list cval) : list (cevent cval) :=
+  match ws with
+  | [] => []
+  | w :: r => mkCE "a" 0 KUpdate (Some prev) (Some w) :: chain_events w r
+  end.
+Definition coll_model (e : ecfg) (seed : cval) (writes : list cval) : list cval :=
+  seed :: flat_map (fun c : cchange cval => match cc_new c with Some v => [v] | None => [] end)
+            (c_forward_gen (fun (_ : unit) (m : cval) => m) (Some (model_e e)) false false
+                           (mkR (rmask := unit) None false None) (chain_events seed writes)).
+
 Definition cvals_eqb (a b : list cval) : bool :=
   list_eqb (fun x y => spec_equal no_ign no_leaf x y && Bool.eqb (valid_of x) (valid_of y)) a b.
 
@@ -75,6 +88,7 @@ Definition agrees (c : c16case) : bool :=
       && bb_eqb ps (proto_equal (strip_opt x) (strip_opt y), proto_equal (strip_opt y) (strip_opt x))
       && forallb (agrees_obs x y) os
   | KStream e seed writes emitted => cvals_eqb emitted (pull_model e seed writes)
+  | KCollStream e seed writes emitted => cvals_eqb emitted (coll_model e seed writes)
   end.
 
 (* ---------- the property on the observation ---------- *)
@@ -131,6 +145,7 @@ Definition C16_ok (c : c16case) : bool :=
   | KPair x y pr ps os => forallb (ok_obs x y ps) os
   | KStream e seed writes emitted =>
       cvals_eqb emitted (match seed with Some s => [s] | None => [] end ++ ideal_stream e seed writes)
+  | KCollStream e seed writes emitted => cvals_eqb emitted (seed :: ideal_stream e (Some seed) writes)
   end.
 
 (* ---------- guard: the hypotheses of the theorems and of the exact-arithmetic modelling ---------- *)
@@ -172,6 +187,7 @@ Definition C16_guard (c : c16case) : bool :=
   match c with
   | KPair x y _ _ os => opt_guard x && opt_guard y && forallb obs_guard os
   | KStream e seed writes _ => opt_guard seed && forallb (fun w => opt_guard (Some w)) writes && ecfg_guard e
+  | KCollStream e seed writes _ => opt_guard (Some seed) && forallb (fun w => opt_guard (Some w)) writes && ecfg_guard e
   end.
 
 (* ---------- known-finding classes ---------- *)
@@ -189,6 +205,8 @@ Fixpoint has_sat_duration (x : cval) : bool :=
 Definition opt_sat (x : option cval) : bool := match x with Some a => has_sat_duration a | None => false end.
 Definition is_dur (c : vcfg) : bool := match c with VDur _ => true | _ => false end.
 
+(* class 3: Collection.Pull compares old and new of each change, so a tolerance drifts: a collection
+   stream whose delivered values differ from "delivered iff not equivalent to the last delivered" *)
 (* class 1: a configuration containing DurationValueWithinP (a ratio test: neither reflexive nor
    symmetric); class 2: DurationValueWithin on a pair holding a Duration beyond +-292 years *)
 Definition obs_class (x y : option cval) (o : obs) : option Z :=
@@ -212,6 +230,7 @@ Definition case_class (c : c16case) : option Z :=
           end
       end
   | KStream _ _ _ _ => None
+  | KCollStream _ _ _ _ => Some 3
   end.
 
 Definition judge (c : c16case) : Z :=
